@@ -464,6 +464,9 @@ func (e *Engine) genReplay(prop string, f *FnCtx, o *Obligation, model map[strin
 	} else {
 		b.WriteString(hints + "\n")
 	}
+	if !strings.Contains(hints, "govcStringPool") {
+		b.WriteString("var govcStringPool []string\n\n")
+	}
 	fmt.Fprintf(&b, "func TestGovcReplay(t *testing.T) {\n")
 	fmt.Fprintf(&b, "\tvar spec govcSpec\n\tjson.Unmarshal([]byte(%q), &spec)\n", mustJSON(map[string]interface{}{"Requires": reqs, "Ensures": enss, "Macros": macros}))
 	fmt.Fprintf(&b, "\tvar trees map[string]*govcTree\n\tjson.Unmarshal([]byte(%q), &trees)\n", string(modelJSON))
